@@ -293,8 +293,19 @@ def isNewLine : List Val → Bool
   | .w "lzero" :: _ => true
   | _ => false
 
+/-- In a tainted world the Lean specification says nothing, but the property is DEFINED as equality with the standard library, whose own
+answer is on the line: when the fork's half differs from the standard library's half and the model does not account for that difference
+(the sentinel-`Value` typing artefacts are accounted for), the line is a violation of the property (fork ≠ stdlib), not a mere model mismatch. -/
+def stdOracle (impl : String) (o : Out) : Out :=
+  if o.spec.isSome || o.model == impl || o.model == "bad-op" then o else
+  match impl.splitOn " std:" with
+  | [fork, std] => if fork != std then { o with spec := some (std ++ " std:" ++ std) } else o
+  | _ => o
+
 def step (st : St) (toks : List Val) (impl : String) : St × Out :=
-  if st.tainted && !isRingLine toks && !isNewLine toks then taintedStep st toks impl else
+  if st.tainted && !isRingLine toks && !isNewLine toks then
+    let r := taintedStep st toks impl
+    (r.1, stdOracle impl r.2) else
   match toks with
   | [.w "lnew", .i l] =>
     -- lists.New() = new(List).Init(): a fresh cell, then Init (on an empty list: inside the theorem)
